@@ -964,13 +964,7 @@ static int handleResponse(KSI_AsyncClient *c, void *resp,
 			goto cleanup;
 		}
 
-		res = resp_verifyWithRequest(resp, req);
-		if (res != KSI_OK) {
-			KSI_pushError(c->ctx, res, NULL);
-			goto cleanup;
-		}
-
-		/* Verify response status. */
+		/* Verify response status. An error status concerns this request only. */
 		res = resp_getStatus(resp, &status);
 		if (res != KSI_OK) {
 			KSI_pushError(c->ctx, res, NULL);
@@ -989,6 +983,12 @@ static int handleResponse(KSI_AsyncClient *c, void *resp,
 			handle->errExt = (long)KSI_Integer_getUInt64(status);
 			handle->errMsg = KSI_Utf8String_ref(errorMsg);
 		} else {
+			res = resp_verifyWithRequest(resp, req);
+			if (res != KSI_OK) {
+				KSI_pushError(c->ctx, res, NULL);
+				goto cleanup;
+			}
+
 			handle->respCtx = resp_ref(resp);
 			handle->respCtx_free = resp_free;
 
